@@ -91,3 +91,9 @@ def caller_of(width, value):
             return b1 // 64
         return None
     return None
+
+
+def detached(out):
+    """True when a simulation result is the harness' own 'cannot attach' condition (=> inconclusive, never a verdict)."""
+    from gateways.harness import HarnessDetached
+    return isinstance(out, HarnessDetached)
